@@ -37,6 +37,7 @@ ASSUMPTIONS = [
     "keys are legacy uint32[2] threefry keys; 'distinct key' is decided on the raw key words recorded by the tracer kernels, the quantity generators and the jitter functions",
     "lineage oracle: besides literal distinctness no recorded key may be derivable (jax.random.split fan-out <= 4, depth <= 2) from another recorded key or from the engine's live carry key; deeper/other derivations (fold_in) are not searched",
     "real kernels (RW/HMC/NUTS/IWLS) are run only for bit-equality, independence and initial values (their keys are not observable); XLA CPU is trusted to be deterministic for identical programs and batch shapes",
+    "cross-interpreter reproducibility is checked for 2 configurations x up to 3 fresh interpreters (PYTHONHASHSEED chosen so that set(position keys) iterates in different orders); other sources of per-process variation (ASLR, dict order of non-string keys) are not varied",
     "chain independence is decided for per-chain initial states (a replicated state cannot be perturbed in one chain only)",
     "the engine is driven epoch by epoch with sample_next_epoch(); Engine._prng_key is read (not written) after every epoch",
 ]
@@ -209,6 +210,14 @@ def real_cases(tier, seed):
     return cases
 
 
+def xproc_cases(seed):
+    s = _seeds(seed)[2]
+    return [
+        dict(kind="tracer", seed=s, chains=2, nk=3, nq=1, schedule=[["FAST", 2, 1], ["POSTERIOR", 2, 1]], chunk=2, jitter="key", init="multi", repeat=False, perturb=[]),
+        dict(kind="real", kset="rw", seed=s, chains=2, schedule=[["BURNIN", 2, 1], ["POSTERIOR", 2, 1]], chunk=2, jitter="key", init="replicated", repeat=False, perturb=[]),
+    ]
+
+
 def units(tier, seed):
     tc = tracer_cases(tier, seed)
     rc = real_cases(tier, seed)
@@ -220,6 +229,9 @@ def units(tier, seed):
     first = [tc[i] for i in tc_sorted]
     for u in range(0, len(first), size):
         out.append({"cases": first[u : u + size], "u": len(out)})
+        if len(out) == 1:
+            # cross-interpreter reproducibility (fresh processes, other string-hash seeds)
+            out.append({"kind": "xproc", "cases": xproc_cases(seed), "u": len(out)})
     for c in rc:
         out.append({"cases": [c], "u": len(out)})
     return out
@@ -822,9 +834,108 @@ def _split_fn():
     return children
 
 
+def _leaf_digests(leaves):
+    import hashlib
+
+    return {k: hashlib.sha256(f"{v.dtype}{v.shape}".encode() + v.tobytes()).hexdigest()[:20] for k, v in leaves.items()}
+
+
+def _jittered_names(case):
+    return [f"x{i}" for i in range(case["nk"])] if case["kind"] == "tracer" else ["a", "b"]
+
+
+def run_xproc_unit(res, unit):
+    """
+    "Two runs with identical seed ... produce bit-identical results" across interpreters:
+    the same configurations are run in this process and in fresh Python processes whose
+    string hashing differs (PYTHONHASHSEED), i.e. what re-running a script means. The
+    hash seeds are chosen by enumeration so that set(<jittered position keys>) iterates
+    in pairwise different orders (up to 3 processes).
+    """
+    import json
+    import subprocess
+    import sys
+
+    cases = unit["cases"]
+    names = [_jittered_names(c) for c in cases]
+    probe = "import json,sys; print(json.dumps([list(set(n)) for n in json.loads(sys.argv[1])]))"
+    here = json.dumps([list(set(n)) for n in names])
+    chosen, seen_orders = [], {here}
+    for k in range(1, 60):
+        env = {**os.environ, "PYTHONHASHSEED": str(k)}
+        out = subprocess.run([sys.executable, "-c", probe, json.dumps(names)], env=env, capture_output=True, text=True, check=True).stdout.strip()
+        if out not in seen_orders:
+            seen_orders.add(out)
+            chosen.append(k)
+        if len(chosen) == 3:
+            break
+    if len(chosen) < 2:
+        raise RuntimeError("could not find PYTHONHASHSEED values with different set orders")
+    procs = []
+    for k in chosen:
+        env = {**os.environ, "PYTHONHASHSEED": str(k), "VERIF_REPO": os.environ.get("VERIF_REPO", "/repo")}
+        procs.append(subprocess.Popen([sys.executable, "-m", "mc.checks.c10", "--xproc", json.dumps(cases)], cwd=core.VERIF, env=env, stdout=subprocess.PIPE, stderr=subprocess.PIPE, text=True))
+    mine = []
+    for case in cases:
+        try:
+            mine.append(_leaf_digests(run_engine(case, "int")["leaves"]))
+        except LieselRaised as e:
+            for pr in procs:
+                pr.kill()
+            res.violation("engine-raises", f"{e.stage}-{case['init']}-raises-{type(e.exc).__name__}-in-{e.where.split(':')[-1]}", dict(case), f"liesel raised during {e.stage} on a valid configuration: {e.exc!r} ({e.where})")
+            return
+    res.states += len(cases)
+    res.executions += len(cases)
+    for k, pr in zip(chosen, procs):
+        out, err = pr.communicate(timeout=900)
+        line = [l for l in out.splitlines() if l.startswith("XPROC ")]
+        if pr.returncode != 0 or not line:
+            raise RuntimeError(f"cross-interpreter worker (PYTHONHASHSEED={k}) failed: rc={pr.returncode} {err[-1500:]}")
+        theirs = json.loads(line[0][6:])
+        for ci, case in enumerate(cases):
+            res.executions += 1
+            a, b = mine[ci], theirs[ci]
+            bad = sorted(kk for kk in set(a) | set(b) if a.get(kk) != b.get(kk))
+            res.outcome("cross-interpreter", case["kind"], "equal" if not bad else "differs")
+            if bad:
+                c = dict(case)
+                c["detail"] = {"PYTHONHASHSEED": k, "leaves": bad[:10]}
+                res.violation(
+                    "reproducibility",
+                    f"differs-across-interpreters-{case['kind']}-{len(_jittered_names(case))}-jittered-keys",
+                    c,
+                    f"the same configuration (seed {case['seed']}, {case['kind']} kernels, key-using jitter on {_jittered_names(case)}) run in a fresh interpreter with PYTHONHASHSEED={k} differs from this process in {len(bad)} leaves, first {bad[:3]}",
+                )
+    res.extra["hash_orders_compared"] = len(chosen) + 1
+    res.note([cases, mine])
+    res.sample({"cross_interpreter_cases": cases, "hash_seeds": chosen}, limit=1)
+
+
+def _xproc_main(argv):
+    import json
+
+    cases = json.loads(argv[argv.index("--xproc") + 1])
+    core.assert_repo()
+    lib()
+    from mc.seams import quiet
+
+    out = []
+    with quiet():
+        for case in cases:
+            out.append(_leaf_digests(run_engine(case, "int")["leaves"]))
+    print("XPROC " + json.dumps(out))
+
+
 def run_unit(unit):
     core.assert_repo()
     res = core.UnitResult(unit)
+    if unit.get("kind") == "xproc":
+        from mc.seams import quiet as _q
+
+        lib()
+        with _q():
+            run_xproc_unit(res, unit)
+        return res
     from mc.seams import quiet
 
     import time
@@ -836,3 +947,10 @@ def run_unit(unit):
             check_case(res, case)
     res.extra["cpu_s"] = round(time.process_time() - t0, 1)
     return res
+
+
+if __name__ == "__main__":
+    import sys as _sys
+
+    if "--xproc" in _sys.argv:
+        _xproc_main(_sys.argv)
